@@ -29,12 +29,12 @@ def budget(tier):
 
 @st.composite
 def cases(draw):
-    big = draw(st.integers(0, 199)) == 0
+    big = draw(st.integers(0, 119)) == 0
     if big:
         s = {'hashing': {'name': 'blake2b', 'length': 32}, 'chunking': {},
              'encryption': draw(st.sampled_from([None, {'cipher': {'name': 'chacha20_poly1305'}, 'kdf': {'name': 'blake2b'}}]))}
         delta = draw(st.integers(-4, 4))
-        mult = draw(st.sampled_from([1, 1, 2]))
+        mult = draw(st.sampled_from([1, 2, 2, 3]))
         files = [{'path': 'dbig/fbig', 'content': [['r', 7, mult * BIG + delta]], 'mtime_ns': 1_600_000_000_123_456_789}]
         if draw(st.booleans()):
             files.append({'path': 'dbig/fsmall', 'content': [['r', 8, draw(st.integers(0, 9))]], 'mtime_ns': 1_500_000_000_000_000_001})
